@@ -1,5 +1,6 @@
 import NdnModel.SegFetch
 import NdnModel.SegFetchNames
+import NdnModel.SegFetchTimed
 /-  Line protocol for the segmented-fetch model:
     `C19 <obj> <disc> <limit> <script>`
         obj ::= u | s:. | s:<fbi>,<fbi>,…   (fbi ::= ~ | n; segment i has content id i, the unsegmented object 999)
@@ -10,7 +11,17 @@ import NdnModel.SegFetchNames
     unsegmented object `<base>` is the full name of its Data) the names-level model runs as well
     (`Ndn.SegFetch.fetchB` against `producer`: it builds every Interest name itself, `name[-1] = from_segment(n)`),
     and the answer gets three more tokens: `<yielded> <end> <namelog | .>`,
-    namelog ::= entry;entry;…  entry ::= <name>:<outcome letter> — every Interest name byte for byte. -/
+    namelog ::= entry;entry;…  entry ::= <name>:<outcome letter> — every Interest name byte for byte.
+
+    Timed model (`Ndn.SegFetchT.fetchT`: the generator over the pending-Interest table `Ndn.Pit`, answers take time):
+    `C19 T <obj> <disc> <limit> <lifetime> <nack reason> <tscript>`
+        tscript ::= . | entry,entry,…   entry ::= <outcome letter><delay in ms>   (what the producer does with the n-th
+        Interest and how long the answer travels; `t` needs no delay)
+    `C19 B <obj> <disc> <limit> <script> <prefix> <base> | <obj> <disc> <limit> <lifetime> <nack reason> <tscript>`
+        both questions on one line, the two answers joined by ` | `
+    answer `ok <yielded ids | .> <sent | .> <end> <seen | .>`
+        sent ::= (D | S<i>)@<time>,…   every Interest the producer saw and when
+        seen ::= (D | S<i>)(d<data id> | t | n<reason> | x),…   what each awaitable came to -/
 namespace Ndn.Drv.C19
 open Ndn Ndn.SegFetch
 
@@ -48,7 +59,31 @@ def objB (o : Obj) (base : List Bytes) : ObjB × Nat :=
   | .unseg c => (.unseg base c, 1)
   | .segs l => (.segs base l, l.length + 1)
 
-def handle (args : List String) : String :=
+def pTimed (s : String) : Option (Outcome × Nat) :=
+  match s.toList with
+  | c :: r => match pOutcome c, (if r.isEmpty then some 0 else (String.ofList r).toNat?) with
+    | some o, some d => some (o, d)
+    | _, _ => none
+  | [] => none
+
+def sSeen : Pit.Outcome → String
+  | .data d => "d" ++ toString d
+  | .timeout => "t"
+  | .nack r => "n" ++ toString r
+  | _ => "x"
+
+def handleTimed (obj disc limit life reason script : String) : String :=
+  match pObj obj, disc.toNat?, limit.toNat?, life.toNat?, reason.toNat?,
+      (if script == "." then some [] else (script.splitOn ",").mapM pTimed) with
+  | some o, some d, some l, some lf, some rs, some sc =>
+    let r := SegFetchT.fetchT ⟨⟨o, d, lf, rs⟩, l, sc⟩
+    "ok " ++ showNatList r.1.yielded ++ " " ++
+      (if r.2.sent.isEmpty then "." else ",".intercalate (r.2.sent.map fun e => sReq e.1 ++ "@" ++ toString e.2)) ++ " " ++
+      sEnd r.1.end_ ++ " " ++
+      (if r.1.log.isEmpty then "." else ",".intercalate (r.1.log.map fun e => sReq e.1 ++ sSeen e.2))
+  | _, _, _, _, _, _ => "bad-op"
+
+def handleUntimed (args : List String) : String :=
   match args with
   | [obj, disc, limit, script, pre, base] =>
     match pObj obj, disc.toNat?, limit.toNat?, (if script == "." then some [] else script.toList.mapM pOutcome),
@@ -70,5 +105,15 @@ def handle (args : List String) : String :=
         (if r.log.isEmpty then "." else ",".intercalate (r.log.map fun e => sReq e.1 ++ sOutcome e.2)) ++ " " ++ sEnd r.end_
     | _, _, _, _ => "bad-op"
   | _ => "bad-op"
+
+def handle (args : List String) : String :=
+  match args with
+  | ["T", obj, disc, limit, life, reason, script] =>
+    if Pit.tableOk then handleTimed obj disc limit life reason script else "bad-table"
+  | ["B", obj, disc, limit, script, pre, base, "|", obj2, disc2, limit2, life, reason, tscript] =>
+    -- both: the untimed models and the timed one (answers joined by ` | `)
+    handleUntimed [obj, disc, limit, script, pre, base] ++ " | " ++
+      (if Pit.tableOk then handleTimed obj2 disc2 limit2 life reason tscript else "bad-table")
+  | _ => handleUntimed args
 
 end Ndn.Drv.C19
